@@ -332,6 +332,33 @@ class H:
     def f_eval_when_compile(self, form, *body):
         return NONE                     # contributes nothing at run time
 
+    def f_match(self, form, subject, *rest):
+        """Python's match statement: cases tried in order, guard evaluated only when the pattern matched, value of the
+        selected case's body, None when nothing matches.  Pattern matching itself is an opaque decision."""
+        c = self.c
+        rest = list(rest)
+        clauses = []
+        while rest:
+            rest.pop(0)                       # the pattern
+            if rest and isinstance(rest[0], Keyword) and str(rest[0]) == ":as":
+                rest.pop(0)
+                rest.pop(0)
+            guard = None
+            if rest and isinstance(rest[0], Keyword) and str(rest[0]) == ":if":
+                rest.pop(0)
+                guard = rest.pop(0)
+            clauses.append((guard, rest.pop(0)))
+        subj = self.eval(subject)
+        for i, (guard, body) in enumerate(clauses):
+            k = c.occ(("case", subj, i))
+            c.event("case-test", subj, i, k)
+            if not c.o.choose(("case-matches", subj, i, k)):
+                continue
+            if guard is not None and not c.truthy(self.eval(guard)):
+                continue
+            return self.eval(body)
+        return NONE
+
     def f_and(self, form, *ops):
         return self.shortcircuit(ops, True)
 
@@ -744,7 +771,7 @@ class Seg:
 
 
 def _pyname(h):
-    return {"eval-and-compile": "eval_and_compile", "eval-when-compile": "eval_when_compile", "cond": "cond", "when": "when", "fn": "fn", "for": "for", "do": "do", "if": "if", "and": "and", "or": "or", "not": "not", "bnot": "bnot", "get": "get", "cut": "cut",
+    return {"match": "match", "eval-and-compile": "eval_and_compile", "eval-when-compile": "eval_when_compile", "cond": "cond", "when": "when", "fn": "fn", "for": "for", "do": "do", "if": "if", "and": "and", "or": "or", "not": "not", "bnot": "bnot", "get": "get", "cut": "cut",
             "while": "while", "break": "break", "continue": "continue", "return": "return", "raise": "raise",
             "setv": "setv", "setx": "setx", "let": "let", "with": "with", "try": "try"}.get(h, "\0none")
 
